@@ -324,7 +324,8 @@ def rule_X1(ctx, info):
     ctx.check(same_guard, "X1", "_compute_log_D_n: value and back-pointer written in the same guarded block", f.where(ptr.node),
               "result[i] is written under %s but choice[i] under %s: the pointer no longer belongs to the stored maximum" % ([show(g) for g in gv] or "no guard", [show(g) for g in gp] or "no guard"),
               construct=Q, stmt="co-update")
-    g = gv[-1] if gv else None
+    from ..termflow import ordering as _ordering
+    g = _ordering(gv[-1]) if gv else None
     if g is None:
         ctx.fail("X1", "_compute_log_D_n: guard is 'candidate beats current result[i]'", f.where(val.node), "result[i] is overwritten unconditionally (last candidate wins, not the best)", construct=Q, stmt="guard direction")
     else:
@@ -508,7 +509,8 @@ def rule_X2(ctx, info):
     c_prev = _sub(C, prev_idx)
     seen_hi = []
     for n, (g, evs) in enumerate(sorted(arms.items(), key=lambda kv: repr(kv[0]))):
-        gg = g[0]
+        from ..termflow import ordering as _ordering
+        gg = _ordering(g[0])
         if gg[0] != "cmp" or gg[1] not in ("<", "<="):
             raise AnalysisError("C10/X2: the guard %s in %s is not an ordering comparison" % (show(gg), Q))
         lo, hi = gg[2], gg[3]
